@@ -83,7 +83,7 @@ func (c12Prop) Assumptions() []string {
 
 var c12Types = []string{"Flat", "Nested", "Ptrs", "Slices", "OneMap", "Timed", "Padded", "Omit", "Nulls", "PtrSlices", "NullPtrs"}
 
-var c12OpNames = []string{"build", "build", "register", "register", "decode", "decode", "decodeproj", "decodeproj", "encode", "encode", "readfile", "readfile", "closebanks", "schema", "parsetime", "parsetime", "encoder"}
+var c12OpNames = []string{"build", "build", "register", "register", "decode", "decode", "decodeproj", "decodeproj", "encode", "encode", "readfile", "readfile", "closebanks", "schema", "fromstring", "parsetime", "parsetime", "encoder"}
 
 func (c12Prop) Generate(seed uint64, idx int, tier string) *Plan {
 	r := NewRng(seed, uint64(idx)<<8|0x12)
@@ -503,6 +503,7 @@ type c12Env struct {
 	pcodecs  []avro.Codec // shared codec per type for a projected target (skip paths)
 	ptypes   []reflect.Type
 	ecodecs  []avro.Codec      // shared codec per type for an empty target (everything skipped)
+	schemaJS []string          // schema JSON per type
 	values   [][]reflect.Value // shared values per type
 	payloads [][][]byte        // per type: own encoding of each value
 	files    [][]byte          // prebuilt container files (one per type)
@@ -661,6 +662,18 @@ func (env *c12Env) execOp(g int, op C12Op, alone bool) (res string) {
 			break
 		}
 		return "closed"
+	case "fromstring":
+		// parse schema text, build a codec from it and use it: the caller-supplied-schema path
+		s, err := avro.SchemaFromString(env.schemaJS[ti])
+		if err != nil {
+			return "fromstring err: " + err.Error()
+		}
+		c, err := s.Codec(reflect.New(d.Type).Elem().Interface())
+		if err != nil {
+			return "fromstring codec err: " + err.Error()
+		}
+		v := env.values[ti][op.B%len(env.values[ti])]
+		return "fromstring " + hashBytes(ownEncoding(c, v))
 	case "schema":
 		s, err := avro.SchemaForType(reflect.New(d.Type).Elem().Interface())
 		if err != nil {
@@ -748,6 +761,11 @@ func newC12Env(pl *C12Plan) (*c12Env, error) {
 		if err != nil {
 			return nil, err
 		}
+		js, err := s.Marshal()
+		if err != nil {
+			return nil, err
+		}
+		env.schemaJS = append(env.schemaJS, string(js))
 		env.pcodecs = append(env.pcodecs, pc)
 		env.ptypes = append(env.ptypes, pt)
 		env.ecodecs = append(env.ecodecs, ec)
